@@ -97,3 +97,13 @@ Theorem c02_fuse_reads_any_order : forall psize total ops r,
           ops (fuse_ops psize total r ops).
 Proof. exact fuse_ops_spec. Qed.
 Print Assumptions c02_fuse_reads_any_order.
+
+(* ... and the same from whatever state ServeContent's own probing has left the reader in (it seeks to
+   the end for the size, may read the first 512 bytes to guess the content type, and seeks back). *)
+Theorem c02_http_range_any_state : forall psize total r s st a cnt fuel,
+  rd_wf psize total r -> rd_closed r = false -> rd_offset r + rd_length r <= total ->
+  rspec_ok s = true -> http_range (rd_length r) s = (st, a, cnt) -> st <> 416 -> (Z.to_nat cnt <= fuel)%nat ->
+  let l := fst (read_n fuel 32768 psize total (fst (rd_seek r a SeekStart)) cnt) in
+  chained (rd_offset r + a) l /\ rsum l = cnt /\ 0 <= a /\ a + cnt <= rd_length r.
+Proof. exact http_range_any. Qed.
+Print Assumptions c02_http_range_any_state.
